@@ -4,6 +4,7 @@ import (
 	"context"
 	"encoding/json"
 	"fmt"
+	"strings"
 
 	"github.com/junioryono/godi/v4"
 	"github.com/junioryono/godi/v4/internal/vsched"
@@ -31,39 +32,40 @@ func c18Spec(shape string) kit.Spec {
 }
 
 type c18Case struct {
-	Shape string   `json:"shape"`
-	Ctx   []string `json:"ctx"` // context kind of s1, s2 (child of s1), s3 (child of s2): cancel | nil | plain
-	Order int      `json:"order"`
+	Shape   string   `json:"shape"`
+	Ctx     []string `json:"ctx"`               // context kind of s1, s2, s3: cancel | nil | "" (plain) | pcancel (derived from the parent scope's Context()) | from-s1 (derived from s1's Context())
+	Parents []int    `json:"parents,omitempty"` // parent of s1, s2, s3: 0 = provider, i = s_i (default: the chain 0,1,2)
+	Order   int      `json:"order"`
 }
 
-func c18Run(c c18Case) (*Env, []Finding) {
-	spec := c18Spec(c.Shape)
-	e := NewEnv(&spec)
-	e.Build()
+var c18Names = []string{"s1", "s2", "s3"}
+
+func (c c18Case) parentName(i int) string {
+	p := i // chain
+	if len(c.Parents) == 3 {
+		p = c.Parents[i]
+	}
+	if p == 0 {
+		return ""
+	}
+	return c18Names[p-1]
+}
+
+// c18Builtins checks every direct request of a built-in and every built-in a
+// constructor received against the scope the resolution was issued on.
+func c18Builtins(e *Env) []Finding {
 	var out []Finding
-	if e.Prov == nil {
-		return e, []Finding{{feat("clause", "build-failed"), fmt.Sprint(e.BuildErr)}}
-	}
 	bad := func(clause, what, d string) { out = append(out, Finding{feat("clause", clause, "what", what), d}) }
-	e.Do(Op{Kind: "scope", Bind: "s1", Ctx: c.Ctx[0]})
-	e.Do(Op{Kind: "scope", Scope: "s1", Bind: "s2", Ctx: c.Ctx[1]})
-	e.Do(Op{Kind: "scope", Scope: "s2", Bind: "s3", Ctx: c.Ctx[2]})
-	targets := []string{"", "s1", "s2", "s3"}
-	if c.Order == 1 {
-		targets = []string{"s3", "s1", "", "s2"}
+	if e == nil || e.Prov == nil {
+		return nil
 	}
-	for _, t := range targets {
-		for _, p := range []Op{{Kind: "get", T: "P3"}, {Kind: "get", T: "P2"}, {Kind: "get", T: "P1"}, {Kind: "get", T: "D1"}, {Kind: "group", T: "P4", Group: "g"},
-			{Kind: "get", T: "ctx"}, {Kind: "get", T: "scope"}, {Kind: "get", T: "provider"}} {
-			p.Scope = t
-			e.Do(p)
-		}
-	}
-	// the scope object behind each name; "" / "#build" -> the provider's own root scope
 	rootScopeAny, rerr := e.Prov.Get(kit.TypeOf("scope"))
 	if rerr != nil {
+		if kit.ClassOf(rerr) == "provider-disposed" {
+			return nil
+		}
 		bad("builtin-unresolvable", "scope", fmt.Sprintf("provider.Get(Scope): %v", rerr))
-		return e, out
+		return out
 	}
 	rootScope, _ := rootScopeAny.(godi.Scope)
 	scopeOf := func(name string) godi.Scope {
@@ -118,6 +120,9 @@ func c18Run(c c18Case) (*Env, []Finding) {
 					}
 					bad("injected-builtin-wrong", "scope", fmt.Sprintf("%s constructed on behalf of scope %q received Scope %s, want the scope the resolution was issued on", reg, sn, got))
 				}
+				if sc, ok := a.Ref.(godi.Scope); ok && sc.Provider() != e.Prov {
+					bad("injected-builtin-wrong", "scope.Provider", fmt.Sprintf("%s: the injected Scope's Provider() is not the root provider", reg))
+				}
 			case "provider":
 				if a.Ref != any(e.Prov) {
 					bad("injected-builtin-wrong", "provider", fmt.Sprintf("%s received a Provider that is not the root provider", reg))
@@ -126,6 +131,11 @@ func c18Run(c c18Case) (*Env, []Finding) {
 				if want == nil || a.Ref != any(want.Context()) {
 					bad("injected-builtin-wrong", "ctx", fmt.Sprintf("%s constructed on behalf of scope %q received a context that is not that scope's Context()", reg, sn))
 				}
+				if cx, ok := a.Ref.(context.Context); ok && want != nil {
+					if s, err := godi.FromContext(cx); err != nil || s != want {
+						bad("injected-builtin-wrong", "ctx.FromContext", fmt.Sprintf("%s constructed on behalf of scope %q: FromContext(injected context) is not that scope", reg, sn))
+					}
+				}
 			case "nil":
 				if a.Dep.T == "ctx" || a.Dep.T == "scope" || a.Dep.T == "provider" {
 					bad("injected-builtin-wrong", a.Dep.T, fmt.Sprintf("%s received nil for built-in %s", reg, a.Dep.T))
@@ -133,22 +143,60 @@ func c18Run(c c18Case) (*Env, []Finding) {
 			}
 		}
 	}
+	return out
+}
+
+var c18Gets = []Op{{Kind: "get", T: "P3"}, {Kind: "get", T: "P2"}, {Kind: "get", T: "P1"}, {Kind: "get", T: "D1"}, {Kind: "group", T: "P4", Group: "g"},
+	{Kind: "get", T: "ctx"}, {Kind: "get", T: "scope"}, {Kind: "get", T: "provider"}}
+
+func c18Run(c c18Case) (*Env, []Finding) {
+	spec := c18Spec(c.Shape)
+	e := NewEnv(&spec)
+	e.Build()
+	var out []Finding
+	if e.Prov == nil {
+		return e, []Finding{{feat("clause", "build-failed"), fmt.Sprint(e.BuildErr)}}
+	}
+	bad := func(clause, what, d string) { out = append(out, Finding{feat("clause", clause, "what", what), d}) }
+	for i, n := range c18Names {
+		e.Do(Op{Kind: "scope", Scope: c.parentName(i), Bind: n, Ctx: c.Ctx[i]})
+	}
+	var targets []string
+	switch c.Order {
+	case 1:
+		targets = []string{"s3", "s1", "", "s2"}
+	case 2:
+		targets = []string{"s2", "s3", "s2", "", "s1", "s3"} // second visits hit the caches
+	default:
+		targets = []string{"", "s1", "s2", "s3"}
+	}
+	for _, t := range targets {
+		for _, p := range c18Gets {
+			p.Scope = t
+			e.Do(p)
+		}
+	}
+	out = append(out, c18Builtins(e)...)
 	// 3. context linkage
-	type carrier interface{ Value(any) any }
+	// ctxParent: the scope whose context a scope's context descends from ("" = none / the caller's own root context)
+	ctxParent := map[string]string{}
 	expectVal := map[string]string{}
-	parentOf := map[string]string{"s1": "", "s2": "s1", "s3": "s2"}
-	for i, n := range []string{"s1", "s2", "s3"} {
-		if c.Ctx[i] == "nil" {
-			if p := parentOf[n]; p != "" {
-				expectVal[n] = expectVal[p]
-			} else {
-				expectVal[n] = "" // provider.CreateScope(nil): background
-			}
-		} else {
+	for i, n := range c18Names {
+		switch c.Ctx[i] {
+		case "nil":
+			ctxParent[n] = c.parentName(i)
+			expectVal[n] = expectVal[c.parentName(i)] // provider.CreateScope(nil): background, no value
+		case "pcancel":
+			ctxParent[n] = c.parentName(i)
+			expectVal[n] = n
+		case "from-s1":
+			ctxParent[n] = "s1"
+			expectVal[n] = n
+		default:
 			expectVal[n] = n
 		}
 	}
-	for _, n := range []string{"s1", "s2", "s3"} {
+	for i, n := range c18Names {
 		sr := e.Scopes[n]
 		if sr == nil || sr.S == nil {
 			bad("scope-creation-failed", n, fmt.Sprintf("scope %s was not created", n))
@@ -157,7 +205,7 @@ func c18Run(c c18Case) (*Env, []Finding) {
 		ctx := sr.S.Context()
 		got, _ := ctx.Value(ctxKey{}).(string)
 		if got != expectVal[n] {
-			bad("context-value-lost", c.Ctx[idxOf(n)], fmt.Sprintf("scope %s: context value %q, want %q (the context passed to CreateScope, or the parent scope's when nil)", n, got, expectVal[n]))
+			bad("context-value-lost", c.Ctx[i], fmt.Sprintf("scope %s: context value %q, want %q (the context passed to CreateScope, or the parent scope's when nil)", n, got, expectVal[n]))
 		}
 		if s, err := godi.FromContext(ctx); err != nil || s != sr.S {
 			bad("from-context-wrong", "direct", fmt.Sprintf("FromContext(%s.Context()) = %v, %v", n, s, err))
@@ -170,31 +218,68 @@ func c18Run(c c18Case) (*Env, []Finding) {
 		if ctx.Err() != nil {
 			bad("context-cancelled-early", n, fmt.Sprintf("scope %s: context already cancelled while the scope is open", n))
 		}
+		if sr.S.Provider() != e.Prov {
+			bad("scope-provider-wrong", n, fmt.Sprintf("scope %s: Provider() is not the root provider", n))
+		}
 	}
-	// cancellation propagates from the caller's context (and from the parent scope when nil was passed)
+	// cancellation propagates from the caller's context (and from the scope a context was derived from)
 	cancelRoot := ""
-	for i, n := range []string{"s1", "s2", "s3"} {
-		if c.Ctx[i] == "cancel" && cancelRoot == "" {
+	for i, n := range c18Names {
+		if (c.Ctx[i] == "cancel" || c.Ctx[i] == "pcancel" || c.Ctx[i] == "from-s1") && cancelRoot == "" && e.Scopes[n] != nil && e.Scopes[n].Cancel != nil {
 			cancelRoot = n
 		}
 	}
 	if cancelRoot != "" {
 		e.Do(Op{Kind: "cancel", Scope: cancelRoot})
 		affected := map[string]bool{cancelRoot: true}
-		for _, n := range []string{"s1", "s2", "s3"} {
-			if p := parentOf[n]; affected[p] && c.Ctx[idxOf(n)] == "nil" {
-				affected[n] = true
-			}
-		}
-		for n := range affected {
-			if sr := e.Scopes[n]; sr != nil && sr.S != nil {
-				// context cancellation is synchronous: no waiting involved
-				if sr.S.Context().Err() == nil {
-					bad("cancellation-not-observed", c.Ctx[idxOf(n)], fmt.Sprintf("cancelling the caller context of %s is not observed by %s.Context().Done()", cancelRoot, n))
+		for k := 0; k < 3; k++ {
+			for _, n := range c18Names {
+				if p, ok := ctxParent[n]; ok && p != "" && affected[p] {
+					affected[n] = true
 				}
 			}
 		}
+		for i, n := range c18Names {
+			sr := e.Scopes[n]
+			if sr == nil || sr.S == nil {
+				continue
+			}
+			// context cancellation is synchronous: no waiting involved
+			if affected[n] && sr.S.Context().Err() == nil {
+				bad("cancellation-not-observed", c.Ctx[i], fmt.Sprintf("cancelling the caller context of %s is not observed by %s.Context().Done()", cancelRoot, n))
+			}
+			if !affected[n] && sr.S.Context().Err() != nil {
+				bad("cancellation-leaked", c.Ctx[i], fmt.Sprintf("cancelling the caller context of %s cancelled the context of %s, which does not descend from it", cancelRoot, n))
+			}
+		}
 		e.Do(Op{Kind: "settle"})
+		// after the watchers ran: scopes that are neither context- nor tree-descendants of the cancelled one are still usable
+		closedTree := map[string]bool{}
+		for n := range affected {
+			closedTree[n] = true
+		}
+		for k := 0; k < 3; k++ {
+			for i, n := range c18Names {
+				if closedTree[c.parentName(i)] && c.parentName(i) != "" {
+					closedTree[n] = true
+				}
+			}
+		}
+		n0 := len(e.Results)
+		for _, n := range c18Names {
+			if !closedTree[n] {
+				for _, p := range c18Gets {
+					p.Scope = n
+					e.Do(p)
+				}
+			}
+		}
+		for _, r := range e.Results[n0:] {
+			if r.Err != nil {
+				bad("unrelated-scope-unusable", r.Op.Scope, fmt.Sprintf("after cancelling the caller context of %s, %s on the unrelated scope failed: %v", cancelRoot, r.Op, r.Err))
+			}
+		}
+		out = append(out, c18Builtins(e)...)
 	}
 	e.Do(Op{Kind: "close", Scope: ""})
 	e.Do(Op{Kind: "settle"})
@@ -290,11 +375,11 @@ func c18Reserved() []Finding {
 func init() {
 	mc.Register(&mc.Check{
 		Prop:        "C18",
-		Rule:        "scope trees root > s1 > s2 > s3 with every combination of {cancellable context with a value, nil, plain context with a value} per level (27) x {positional, In-struct (value and pointer)} consumers x 2 resolution orders; services of every lifetime (singleton, scoped, transient, scoped initializer, transient group member, nested transient-inside-scoped, and a parameter-object consumer one of whose dependencies re-entrantly resolves another parameter-object service through the injected Provider) take Context / Scope / Provider; every recorded constructor argument and every direct Get of the three built-ins is compared with the scope the resolution was issued on (singletons: the provider's root scope), its Context() and the root provider; context values, FromContext on the scope context and on a derived context, and cancellation propagation are checked per scope; 14 registration routes for the three reserved types must fail and leave the collection unchanged. distinct = canonical observation strings.",
+		Rule:        "scope trees of three scopes under the provider in all 6 parent shapes (chain, star, forks) x per-scope context kind {cancellable with a value, nil, plain with a value, derived from the parent scope's Context(), derived from ANOTHER scope's (s1) Context()} x {positional, In-struct (value and pointer)} consumers x 3 resolution orders (one revisits scopes so caches are hit); services of every lifetime (singleton, scoped, transient, scoped initializer, transient group member, nested transient-inside-scoped, and a parameter-object consumer one of whose dependencies re-entrantly resolves another parameter-object service through the injected Provider) take Context / Scope / Provider; every recorded constructor argument and every direct Get of the three built-ins is compared with the scope the resolution was issued on (singletons: the provider's root scope), its Context(), FromContext of the injected context, and the root provider; context values, FromContext on the scope context and on a derived context, Scope.Provider(), synchronous cancellation propagation along the context ancestry (and non-propagation to unrelated scopes, which must stay usable after the watchers ran) are checked per scope; concurrent part: two goroutines resolving built-in consumers in two different scopes (siblings, parent/child, provider/scope) and scope creation (scoped initializer taking the built-ins) against a resolution, every schedule within the preemption bound (2 quick / 3 thorough; one less for the deep consumer), same injected-built-in oracle plus race/panic/deadlock detection; 14 registration routes for the three reserved types must fail and leave the collection unchanged. distinct = canonical observation strings.",
 		Assume:      []string{"cancellation is observed synchronously (context.WithCancel semantics)"},
 		MinOutcomes: 4,
 		Jobs: func(tier string) []mc.Job {
-			return []mc.Job{
+			jobs := []mc.Job{
 				{Name: "c18-trees", Run: func(r *mc.Report) {
 					run := func(c c18Case) {
 						var e *Env
@@ -304,10 +389,10 @@ func init() {
 						r.Validated++
 						r.States++
 						r.Transitions += int64(len(e.Results))
-						r.Outcome(fmt.Sprintf("%v/%s | calls=%d", c.Ctx, c.Shape, len(e.W.Calls)))
+						r.Outcome(fmt.Sprintf("%v/%v/%s/%d | calls=%d", c.Ctx, c.Parents, c.Shape, c.Order, len(e.W.Calls)))
 						fs = append(fs, genericFindings(e, s)...)
 						for _, f := range fs {
-							r.Violate(f.F, f.Detail+fmt.Sprintf("\n  contexts %v, shape %s, order %d", c.Ctx, c.Shape, c.Order), c)
+							r.Violate(f.F, f.Detail+fmt.Sprintf("\n  contexts %v, parents %v, shape %s, order %d", c.Ctx, c.Parents, c.Shape, c.Order), c)
 						}
 						if len(r.Samples) < 2 {
 							r.Sample(map[string]any{"case": c, "observed": e.Summary()})
@@ -320,13 +405,16 @@ func init() {
 						}
 						return
 					}
-					kinds := []string{"cancel", "nil", ""}
-					for _, a := range kinds {
-						for _, b := range kinds {
-							for _, d := range kinds {
-								for _, sh := range []string{"positional", "in"} {
-									for o := 0; o < 2; o++ {
-										run(c18Case{Shape: sh, Ctx: []string{a, b, d}, Order: o})
+					kinds := []string{"cancel", "nil", "", "pcancel", "from-s1"}
+					trees := [][]int{{0, 1, 2}, {0, 0, 0}, {0, 1, 1}, {0, 0, 1}, {0, 0, 2}, {0, 1, 0}}
+					for _, tr := range trees {
+						for _, a := range kinds[:3] { // s1 hangs off the provider: pcancel / from-s1 do not apply
+							for _, b := range kinds {
+								for _, d := range kinds {
+									for _, sh := range []string{"positional", "in"} {
+										for o := 0; o < 3; o++ {
+											run(c18Case{Shape: sh, Ctx: []string{a, b, d}, Parents: tr, Order: o})
+										}
 									}
 								}
 							}
@@ -347,8 +435,60 @@ func init() {
 					}
 				}},
 			}
+			// concurrent resolutions in different scopes: every schedule within the preemption bound
+			pre := 2
+			if tier == "thorough" {
+				pre = 3
+			}
+			for _, sc := range c18ConcScenarios() {
+				sc := sc
+				b := pre
+				if strings.HasSuffix(sc.Name, "-1") {
+					b-- // the deep consumer (P3: transient + two scoped dependencies, ~4x the scheduling points)
+				}
+				jobs = append(jobs, mc.Job{Name: sc.Name, Weight: 50, Run: func(r *mc.Report) {
+					exploreScenario(r, sc, mc.Bounds{Preempt: b}, func(e *Env, s *vsched.Sched) []Finding { return c18Builtins(e) })
+				}})
+			}
+			return jobs
 		},
 	})
+}
+
+// c18ConcScenarios: two goroutines resolve services that take the built-ins, each in its own
+// scope (siblings, parent/child, provider/scope), so that any state shared between resolutions
+// (builders, cached constructor info, argument buffers) would hand one of them the other's scope.
+func c18ConcScenarios() []*Scenario {
+	var out []*Scenario
+	setup := []Op{{Kind: "scope", Bind: "s1", Ctx: "cancel"}, {Kind: "scope", Scope: "s1", Bind: "s2", Ctx: "nil"}, {Kind: "scope", Bind: "s3", Ctx: ""}}
+	final := []Op{{Kind: "close", Scope: ""}, {Kind: "settle"}}
+	pairs := [][2]string{{"s1", "s3"}, {"s1", "s2"}, {"", "s2"}}
+	targets := [][]Op{
+		{{Kind: "get", T: "D1"}},
+		{{Kind: "get", T: "P3"}},
+		{{Kind: "get", T: "P1"}, {Kind: "get", T: "ctx"}},
+		{{Kind: "group", T: "P4", Group: "g"}, {Kind: "get", T: "P2"}},
+	}
+	for _, sh := range []string{"in", "positional"} {
+		for pi, pr := range pairs {
+			for ti, ops := range targets {
+				if sh == "positional" && ti != 2 {
+					continue
+				}
+				a := make([]Op, len(ops))
+				b := make([]Op, len(ops))
+				for i, o := range ops {
+					a[i], b[i] = o, o
+					a[i].Scope, b[i].Scope = pr[0], pr[1]
+				}
+				out = append(out, &Scenario{Name: fmt.Sprintf("c18-conc/%s-%d-%d", sh, pi, ti), Spec: c18Spec(sh), Setup: setup, Threads: [][]Op{a, b}, Final: final})
+			}
+		}
+	}
+	// scope creation (running the scoped initializer, which takes the built-ins) concurrent with a resolution elsewhere
+	out = append(out, &Scenario{Name: "c18-conc/create-vs-get", Spec: c18Spec("in"), Setup: setup[:1],
+		Threads: [][]Op{{{Kind: "scope", Scope: "s1", Bind: "s2", Ctx: "nil"}, {Kind: "get", Scope: "s2", T: "D1"}}, {{Kind: "get", Scope: "s1", T: "D1"}}}, Final: final})
+	return out
 }
 
 var _ = vsched.Yield
